@@ -128,6 +128,7 @@ class Prop(object):
         for alg in ('rsa2048a', 'dsa1024', 'ecdsa_p256a', 'ed25519a', 'cv25519a', 'ecdh_p256a', 'elgamal'):
             u.append(('foreign', {'key': alg}))
         u.append(('foreign-subkeys', {}))
+        u.append(('gpg', {}))
         depth = 3 if tier == 'quick' else 4
         for ks in ('eddsa+ecdh', 'rsa+subs') if tier == 'quick' else ('eddsa+ecdh', 'rsa+subs', 'dsa', 'ecdsa+ecdh'):
             for first in range(len(self._menu())):
@@ -360,6 +361,55 @@ class Prop(object):
             r.rejected += 1
         r.dim('alg', raw['alg'])
         r.samples.append({'foreign': name, 'forms': len(forms)})
+        return r
+
+    def c_gpg(self, case):
+        """Secret keys protected by GnuPG 2.2.40 itself (its default and AES-256 / SHA-512 parameters)."""
+        import pgpy
+        from mc import gpgfix as G
+        r = Res()
+        if not G.available():
+            r.states = r.transitions = 1
+            r.outcomes['gpg-vectors-absent'] += 1
+            return r
+        for f, name in (('key.PRSA.sec.gpg', 'PRSA'), ('key.PED.sec.gpg', 'PED'), ('key.PED.sec.aes256.gpg', 'PED')):
+            r.states += 1
+            raws = G.raw_keys(name)
+            probs = []
+            try:
+                blob = G.read(f)
+                key = pgpy.PGPKey.from_blob(blob)[0]
+                needles = secret_needles(raws)
+                ints = set(v for x in raws for v in rkeys.secret_ints(x))
+                for nd in needles:
+                    if nd in blob:
+                        probs.append('harness: vector is not protected')
+                if not key.is_protected or key.is_unlocked:
+                    probs.append('not reported as protected and locked')
+                for w in ('gpg-passphrase ', 'Gpg-passphrase', ''):
+                    try:
+                        with key.unlock(w):
+                            probs.append('wrong passphrase %r unlocked it' % w)
+                    except pgpy.errors.PGPDecryptionError:
+                        pass
+                    r.transitions += 1
+                with key.unlock(G.PASS.decode()):
+                    for c, raw in zip(components(key), raws):
+                        km = c._key.keymaterial
+                        if [int(getattr(km, x)) for x in km.__privfields__] != rkeys.secret_ints(raw):
+                            probs.append('unlocked secret integers differ from those the reference recovers')
+                    probs += self._sign_and_check(key, [x for x in raws], r)
+                r.transitions += 1
+                probs += ['after scope: ' + p for p in self._locked_invariant(key, raws, needles, ints)]
+                if bytes(key) != blob:
+                    probs.append('re-export of the protected key differs from the GnuPG export')
+            except Exception as e:
+                import traceback
+                probs.append('unexpected %r %s' % (e, traceback.format_exc()[-300:]))
+            r.outcomes['gpg:' + ('ok' if not probs else 'violation')] += 1
+            if probs:
+                r.viol('gpg', {'kind': 'gpg-protected', 'key': name}, dict(case, only=f), 'GnuPG-protected key %s: %s' % (f, '; '.join(probs[:3])))
+        r.samples.append({'gpg_protected_keys': 3})
         return r
 
     def c_foreign_subkeys(self, case):
